@@ -393,6 +393,12 @@ class MatchCompiler:
             ret += ', varid'
         ret += ');\n'
 
+        ret += '#ifdef DANMAR_CPPCHECK_VERIF\n'
+        ret += '    static verifhooks::McSite * const verif_site = verifhooks::mcRegister("' + pattern + '");\n'
+        ret += '    verifhooks::mcVerify(verif_site, res_parsed_match);\n'
+        ret += '    if (res_parsed_match != res_compiled_match)\n'
+        ret += '        verifhooks::mcMismatch("' + pattern + '", tok ? tok->str() : std::string());\n'
+        ret += '#endif\n'
         ret += '\n'
         # Don't use assert() here, it's disabled for optimized builds.
         # We also need to verify builds in 'release' mode
@@ -533,6 +539,12 @@ class MatchCompiler:
             ret += ', varid'
         ret += ');\n'
 
+        ret += '#ifdef DANMAR_CPPCHECK_VERIF\n'
+        ret += '    static verifhooks::McSite * const verif_site = verifhooks::mcRegister("' + pattern + '");\n'
+        ret += '    verifhooks::mcVerify(verif_site, res_parsed_findmatch != nullptr);\n'
+        ret += '    if (res_parsed_findmatch != res_compiled_findmatch)\n'
+        ret += '        verifhooks::mcMismatch("' + pattern + '", tok ? tok->str() : std::string());\n'
+        ret += '#endif\n'
         ret += '\n'
         # Don't use assert() here, it's disabled for optimized builds.
         # We also need to verify builds in 'release' mode
@@ -721,6 +733,9 @@ class MatchCompiler:
         if len(self._rawMatchFunctions):
             header += '#include "errorlogger.h"\n'
             header += '#include "token.h"\n'
+            header += '#ifdef DANMAR_CPPCHECK_VERIF\n'
+            header += '#include "verifhooks.h"\n'
+            header += '#endif\n'
             header += '#if defined(__clang__)\n'
             header += '#include "config.h"\n'
             header += '#define MAYBE_UNUSED [[maybe_unused]]\n'  # this attribute is also available in earlier standards
